@@ -24,8 +24,65 @@ TYPED_VALUES = [("SEQUENCE {{ a BOOLEAN }}", "{{ a TRUE }}"), ("SEQUENCE OF INTE
                 ("CHOICE {{ a BOOLEAN, b NULL }}", "a : TRUE"), ("ENUMERATED {{ p, q }}", "q"), ("BIT STRING", "'0101'B"), ("SET {{ a INTEGER }}", "{{ a 3 }}")]
 
 
+# whole pipeline (compile_to_string incl. CompileResult::fmt from MIR): several unsupported definitions of the SAME kind, whose
+# warnings read the same - each must still be accounted for by a warning of its own
+PIPE_MODULES = [
+    ("two REAL assignments", ["M DEFINITIONS AUTOMATIC TAGS ::= BEGIN Aa ::= REAL Bb ::= SEQUENCE { x BOOLEAN } Cc ::= REAL END"], ['Aa', 'Cc'], ['Bb']),
+    ("three VideotexString assignments", ["M DEFINITIONS AUTOMATIC TAGS ::= BEGIN Aa ::= VideotexString Bb ::= VideotexString (SIZE (1..4)) Cc ::= VideotexString Dd ::= NULL END"], ['Aa', 'Bb', 'Cc'], ['Dd']),
+    ("REAL assignments in two modules", ["Ma DEFINITIONS AUTOMATIC TAGS ::= BEGIN Keep ::= BOOLEAN Zz ::= REAL END", "Mb DEFINITIONS AUTOMATIC TAGS ::= BEGIN Aa ::= REAL Stay ::= NULL END"], ['Zz', 'Aa'], ['Keep', 'Stay']),
+    ("two TIME and two inverted ranges", ["M DEFINITIONS AUTOMATIC TAGS ::= BEGIN Aa ::= TIME Bb ::= TIME Cc ::= INTEGER (10..5) Dd ::= INTEGER (10..5) Ee ::= NULL END"], ['Aa', 'Bb', 'Cc', 'Dd'], ['Ee']),
+]
+
+
+def prepare():
+    from mirsym import pipe
+    pipe.dump()
+
+
+def job_pipe(chk, i, tier):
+    from mirsym import pipe
+    name, sources, dropped, kept = PIPE_MODULES[i]
+    pp = pipe.Pipe(chk.ex.p)
+    chk.ex.max_path_steps = 60000000
+    sig = f"C10 pipeline {name}"
+    for r in chk.explore(lambda ex: pp.compile(ex, sources)):
+        if r.kind == 'panic':
+            chk.violation(sig + ' panic', f"compilation panics: {r.value[0]}", {'kind': 'text', 'text': '\n'.join(sources)})
+            continue
+        if r.kind != 'ok':
+            continue
+        chk.res.obligations += 1
+        if r.value[0] != 'ok':
+            chk.res.discharged += 1      # Err carries nothing
+            continue
+        text = pipe.text_repr(r.value[1])
+        missing = [n for n in dropped + kept if not re.search(r'pub (struct|enum) ' + n + r'\b', text)]
+        lost_kept = [n for n in kept if n in missing]
+        nwarn = r.value[2]
+        probs = []
+        if lost_kept:
+            probs.append(f"supported definitions {lost_kept} are missing")
+        if len(missing) - len(lost_kept) > nwarn:
+            probs.append(f"{len(missing)} definitions have no binding ({missing}) but only {nwarn} warning(s) are returned")
+        if not probs:
+            chk.res.discharged += 1
+            continue
+        runner = native.Runner()
+        try:
+            out = runner.compile(sources)
+        finally:
+            runner.close()
+        nmissing = [n for n in dropped + kept if not re.search(r'pub (struct|enum) ' + n + r'\b', out.get('generated') or '')]
+        if out.get('ok') and len([n for n in nmissing if n not in kept]) > len(out.get('warnings', [])) or any(n in nmissing for n in kept):
+            chk.violation(sig + ' silent-loss', '; '.join(probs) + ': ' + ' / '.join(sources), {'kind': 'text', 'text': '\n'.join(sources)})
+        else:
+            chk.res.inconclusive.append(f"not reproduced natively: {sig}: {probs}")
+    chk.witness('pipeline accounting explored', True)
+    chk.sample({'pipeline module': name})
+
+
 def jobs(tier, seed):
-    return ['validator-new'] + [f"account{i}" for i in range(4)] + ['native-dups']
+    return ['validator-new'] + [f"account{i}" for i in range(4)] + ['native-dups'] + [f"pipe{i}" for i in range(len(PIPE_MODULES))]
 
 
 def job_validator_new(prog, chk, tier):
@@ -195,6 +252,12 @@ def job_native_dups(prog, chk, tier):
 
 
 def run_job(prog, job, tier, seed):
+    if job.startswith('pipe'):
+        from mirsym import pipe
+        from mirsym.harness import program
+        chk = Checker(program(pipe.dump()), job)
+        job_pipe(chk, int(job[4:]), tier)
+        return chk.res
     chk = Checker(prog, job)
     if job == 'validator-new':
         job_validator_new(prog, chk, tier)
